@@ -1280,7 +1280,7 @@ class PDAG(nx.DiGraph):
                 )
                 neighbors_are_clique = all(
                     (
-                        pdag.has_edge(Y, Z)
+                        pdag.has_edge(Y, Z) or pdag.has_edge(Z, Y)
                         for Z in pdag.predecessors(X)
                         for Y in undirected_neighbors
                         if not Y == Z
